@@ -417,8 +417,9 @@ class Stacker(Transformer):
                 for var, da in X.data_vars.items()
             }
 
-        # Set dimensions and coordinates
-        self.dims_in = X.dims
+        # Set dimensions and coordinates (as a plain tuple of names, which can be
+        # serialized; `Dataset.dims` is a mapping)
+        self.dims_in = tuple(X.dims)
         self.coords_in = {dim: X.coords[dim] for dim in X.dims}
 
         return self
